@@ -27,7 +27,7 @@ def bins(tag):
         return _bins[tag]
 
 
-def scenario(out, name, params, profiles=("debug", "release")):
+def scenario(out, name, params, profiles=("debug", "release"), judge=None):
     """Run a named native scenario. -> (confirmed: bool, report dict)"""
     b, err = bins(out.prop)
     if b is None:
@@ -45,6 +45,12 @@ def scenario(out, name, params, profiles=("debug", "release")):
         except ValueError:
             d = {"outcome": "unparsable", "raw": line[-1][:300]}
         rep[prof] = d
+        if judge is not None:
+            try:
+                if judge(d):
+                    d["violates"] = True
+            except Exception as e:      # a judge must never turn a crash into a pass or a violation
+                d["judge_error"] = str(e)
         if d.get("violates"):
             confirmed = True
     return confirmed, rep
